@@ -1383,6 +1383,9 @@ def run(ck):
     check_pending(ck, prog)
     check_kept(ck, prog)
     check_outq_loops(ck, prog)
+    # "UINT64_MAX on error": the memory usage functions answer an invalid chain (NULL LZMA options) instead of dereferencing it
+    from . import C12 as _C12
+    _C12.check_null_options(ck, prog, rule="C09-NULLOPT", only=("memusage",))
     # what the memory usage functions describe is what a RE-USED coder holds as well: a cached buffer whose size key differs
     # from the new size is replaced, not kept (rule shared with C10)
     from . import C10
